@@ -75,8 +75,11 @@ def inorder_events(n: int, workers: int) -> List[List[Any]]:
 # --------------------------------------------------------------------------- gated pool
 
 class _FakeWorker:
-    def __init__(self) -> None:
+    """stands in for a multiprocessing.Process child of the caller (a pool worker or a bystander)"""
+    def __init__(self, pid: int) -> None:
         self.alive = True
+        self.pid = 40000 + pid
+        self.name = f"fake-{pid}"
 
     def is_alive(self) -> bool:
         return self.alive
@@ -87,7 +90,7 @@ class _Control:
     blocked_seen = 0
 
     def __init__(self, outcomes: List[List[Any]], events: List[List[Any]], has_timeout: bool,
-                 deadline: float = 0.0) -> None:
+                 deadline: float = 0.0, bystanders: Optional[List[int]] = None) -> None:
         self.outcomes = outcomes
         self.events = events
         self.has_timeout = has_timeout
@@ -101,6 +104,8 @@ class _Control:
         self.pools: List[Any] = []
         self.instances: List[Any] = []
         self.fakes: List[_FakeWorker] = []
+        self.bystander_ids = list(bystanders or [])
+        self.bystanders = {pid: _FakeWorker(pid) for pid in self.bystander_ids}
         self.children_calls = 0
         self.thread: Optional[threading.Thread] = None
         self.watchdog = (3.0 if _Control.blocked_seen < 3 else 0.05) + deadline
@@ -135,12 +140,14 @@ class _Control:
             gate.set()
 
     def active_children(self) -> List[Any]:
+        # like the real function: only children that are still alive, earlier children first
         self.children_calls += 1
+        earlier = [b for b in self.bystanders.values() if b.alive]
         if self.children_calls == 1 or not self.pools:
-            return []
+            return earlier
         if not self.fakes:
-            self.fakes = [_FakeWorker() for _ in range(self.pools[-1] or 1)]
-        return list(self.fakes)
+            self.fakes = [_FakeWorker(i) for i in range(self.pools[-1] or 1)]
+        return earlier + list(self.fakes)
 
     def control(self, result: Any) -> None:
         done = set()
@@ -169,7 +176,11 @@ class _Control:
             elif event[0] == "timeout":
                 if self.has_timeout:
                     break
-            elif event[0] == "died":
+            elif event[0] == "exit" and event[1] in self.bystanders:
+                # an unrelated child of the caller ends; give the poll loop time to look at it
+                self.bystanders[event[1]].alive = False
+                time.sleep(0.008)
+            elif event[0] in ("died", "exit"):
                 deadline = time.monotonic() + 1.0
                 while not self.fakes and time.monotonic() < deadline and self.children_calls >= 2:
                     time.sleep(0.0005)
@@ -222,7 +233,8 @@ def run_scheduled(case: Dict[str, Any]) -> Dict[str, Any]:
 
     outcomes = case["outcomes"]
     events = case["events"]
-    ctl = _Control(outcomes, events, bool(case["timeout"]), float(case.get("deadline", 0)))
+    ctl = _Control(outcomes, events, bool(case["timeout"]), float(case.get("deadline", 0)),
+                   case.get("before"))
     n = len(outcomes)
     timeout: Optional[float] = None
     if case["timeout"]:
@@ -236,7 +248,7 @@ def run_scheduled(case: Dict[str, Any]) -> Dict[str, Any]:
             elif event[0] == "timeout" and done_before < total:
                 stalls = True
                 break
-            elif event[0] == "died":
+            elif event[0] == "died" or (event[0] == "exit" and event[1] not in (case.get("before") or [])):
                 break
         # parallel_execute insists on whole seconds (`assert isinstance(timeout, int)`)
         timeout = case.get("deadline", STALL_TIMEOUT) if stalls else int(FAR_TIMEOUT)
@@ -312,6 +324,8 @@ class C18(Property):
         ("antismash/common/record_processing.py", "pre_process_sequences"),
         ("antismash/common/record_processing.py", "sanitise_sequence"),
         ("antismash/common/record_processing.py", "ensure_cds_info"),
+        ("antismash/common/record_processing.py", "fix_record_name_id"),
+        ("antismash/common/record_processing.py", "generate_unique_id"),
         ("antismash/common/secmet/record.py", "Record.__slots__"),
         ("antismash/common/secmet/record.py", "Record.__getattr__"),
         ("antismash/common/secmet/record.py", "Record.__setattr__"),
@@ -380,6 +394,15 @@ class C18(Property):
                 events.insert(rng.randrange(0, len(events) + 1), ["timeout"])
         elif r > 0.85:
             events.insert(rng.randrange(0, len(events) + 1), ["died", rng.randrange(0, k)])
+        before: List[int] = []
+        if rng.random() < 0.2:
+            # the caller owns other child processes; some of them end while the batch is running
+            before = [100 + i for i in range(rng.choice([1, 1, 2]))]
+            for pid in before:
+                if rng.random() < 0.8:
+                    events.insert(rng.randrange(0, len(events) + 1), ["exit", pid])
+            if rng.random() < 0.15:
+                events.insert(rng.randrange(0, len(events) + 1), ["exit", rng.randrange(0, k)])
         use_config = rng.random() < 0.15
         case = {"kind": kind, "cpus": 0 if use_config else k, "config_cpus": k if use_config else rng.choice([1, 2, 4]),
                 "timeout": has_timeout, "outcomes": outcomes, "events": events}
@@ -389,6 +412,9 @@ class C18(Property):
             case["verbose"] = rng.random() < 0.3
         if deadline is not None:
             case["deadline"] = deadline
+        if before:
+            case["before"] = before
+            case["after"] = before + list(range(k))
         return case
 
     def single_cpu_case(self, rng: random.Random) -> Dict[str, Any]:
@@ -548,6 +574,12 @@ class C18(Property):
                     if rng.random() < 0.5:
                         case["timeout"] = 30
                     cases.append(case)
+        for k in ([2, 3, 5, 8, 16] if thorough else [2, rng.choice([4, 9, 16])]):
+            # the caller owns another child process that ends while the batch is running
+            n = rng.choice([k, k + 1, 3 * k + 1])
+            tasks = [[rng.choice([250, 320, 400]), "ok", rng.randrange(1000)] for _ in range(n)]
+            cases.append({"kind": "rpf", "cpus": k, "tasks": tasks, "bystander_ms": rng.choice([60, 120]),
+                          **({"timeout": 30} if rng.random() < 0.5 else {})})
         if thorough:
             for k in (2, 7):
                 tasks = tasks_for(k + 1, k, "random")
@@ -670,7 +702,8 @@ class C18(Property):
             impl = {"err": "task", "e": "non-integer results"}   # cannot be what the spec expects
         if kind in ("pf", "pe"):
             return {"kind": kind, "cpus": case["cpus"], "config_cpus": case["config_cpus"], "timeout": case["timeout"],
-                    "outcomes": case["outcomes"], "events": case["events"], "impl": impl}
+                    "outcomes": case["outcomes"], "events": case["events"], "impl": impl,
+                    "before": case.get("before", []), "after": case.get("after", [])}
         if kind == "rpf":
             if "harness_error" in obs:
                 return None
@@ -678,6 +711,12 @@ class C18(Property):
                         for _d, mode, val in case["tasks"]]
             return {"kind": "pf", "cpus": case["cpus"], "config_cpus": 1, "timeout": case.get("timeout") is not None,
                     "outcomes": outcomes, "events": obs.get("events", []), "impl": impl}
+        if kind == "prep":
+            if "recs" not in obs or any(spec.get("original_id") for spec in case["records"]):
+                return None
+            return {"kind": "prep_ids", "cpus": case["cpus"], "allow_long": bool(case.get("allow_long_headers", False)),
+                    "recs": [[spec["id"], spec.get("name") if spec.get("name") is not None else "<unknown name>"]
+                             for spec in case["records"]]}
         if kind == "rpe":
             if "harness_error" in obs:
                 return None
@@ -696,9 +735,26 @@ class C18(Property):
                                                   f"{obs.get('trace', '')[-300:]}", tags=(kind, "harness-error"))
         if kind in ("rec", "prep"):
             problems = list(obs.get("problems", [])) + [f"pickle: {p}" for p in obs.get("pickle_problems", [])]
-            tags = (kind, case.get("func", "prep"), f"cpus{case['cpus']}", "error" if "error" in obs else "records")
-            return Judgement(not problems, not problems, nontrivial=True, tags=tags,
-                             detail="; ".join(problems)[:600])
+            tags = [kind, case.get("func", "prep"), f"cpus{case['cpus']}", "error" if "error" in obs else "records"]
+            corr = not problems
+            if kind == "prep" and drv is not None and "recs" in obs and "model" in drv:
+                # Lean: the id set threaded in the parent (C16 model) = the one-cpu result (theorem
+                # state_threaded_in_parent_cpus_invariant); `shipped` = a copy per task batch
+                model = drv["model"].get("recs")
+                ids = [r[0] for r in obs["recs"]]
+                if len(set(ids)) < len(ids):
+                    problems.insert(0, f"records share an identifier: {ids}")
+                mismatch = ""
+                if model is not None and obs["recs"] != model:
+                    corr = False
+                    mismatch = f"model (id set threaded in the parent) {model} vs implementation {obs['recs']}"
+                if drv.get("shipped") is not None and drv["shipped"] != model:
+                    tags.append("ids-depend-on-threading")
+                    if obs["recs"] == drv["shipped"]:
+                        problems.append("identifiers are those of a per-batch copy of the id set")
+                if mismatch and not problems:
+                    return Judgement(False, True, nontrivial=True, tags=tuple(tags), detail=mismatch[:600])
+            return Judgement(corr, not problems, nontrivial=True, tags=tuple(tags), detail="; ".join(problems)[:600])
         assert drv is not None
         if "err" in drv and "model" not in drv:
             return Judgement(False, True, detail=f"driver error {drv['err']}")
